@@ -134,6 +134,8 @@ def run(ctx):
     # which names of a function body are module names at all (nested scopes): implementation, model and CPython's symbol table
     from . import c01s
     c01s.run_scope(ctx, res, thorough)
+    # kept calls executed several times in one evaluation (loops)
+    c01s.run_loops(ctx, res, thorough)
     pipeline.close_ref()
     # the hypotheses of C01.sig_sound / memo_correct / history_correct on everything that was generated
     res.count("universe_function_versions", uc.functions)
